@@ -6,7 +6,11 @@ use std::io::Write;
 fn main() {
     let def = std::env::var("BPAF_VERIF_DEF").expect("BPAF_VERIF_DEF");
     let def: serde_json::Value = serde_json::from_str(&def).expect("definition json");
-    let parser = build_options(&def);
+    let mut parser = build_options(&def);
+    // C13: the width help is printed at comes from `max_width`
+    if let Some(w) = std::env::var("BPAF_VERIF_WIDTH").ok().and_then(|w| w.parse::<usize>().ok()) {
+        parser = parser.max_width(w);
+    }
     let v = parser.run();
     let mut out = std::io::stdout();
     writeln!(out, "BODY {}", v.to_json()).unwrap();
